@@ -35,6 +35,7 @@ class TSPH(Harness):
     THOROUGH = ["TSP@6"] + [f"TSP@6~{k}" for k in range(8)] + ["TSP@5~c"]
     INVALID = "terminate"
     REWARD_VARIANTS = [{}, {"reward_fn": _sparse()}]
+    REF_REWARD_VARIANTS = True   # ref_step follows the configured reward function (C09 runs the variants too)
     DIFF_ULPS = 8   # jitted XLA:CPU (FMA-fused norm) vs primitive-by-primitive float32 evaluation of the encoding: rewards differ by <= 1 ulp per norm
 
     def __init__(self, cfg, **over):
